@@ -157,6 +157,29 @@ fn ro_case(h: &History, path: &std::path::Path, calls: &mut u64) -> Result<Vec<(
                 for (_n, cb) in b.cursor().to_buckets() {
                     ro_mutators_on_bucket(&cb, mb, &[b"zz-absent".to_vec()], &mut viol, calls);
                 }
+                // ... through ranges (unbounded and bounded) and through a seeked cursor
+                for (_n, rb) in b.range::<std::ops::RangeFull>(..).to_buckets() {
+                    ro_mutators_on_bucket(&rb, mb, &[b"zz-absent".to_vec()], &mut viol, calls);
+                }
+                let lo: &[u8] = b"";
+                for (_n, rb) in b.range(lo..).to_buckets() {
+                    ro_mutators_on_bucket(&rb, mb, &[b"zz-absent".to_vec()], &mut viol, calls);
+                }
+                let mut sc = b.cursor();
+                sc.seek(lo);
+                for (_n, rb) in sc.to_buckets() {
+                    ro_mutators_on_bucket(&rb, mb, &[b"zz-absent".to_vec()], &mut viol, calls);
+                }
+                // ... and `for entry in bucket` on a second handle to the same bucket, opened by a listed name
+                if let Ok(b2) = tx.get_bucket(name.clone()) {
+                    for d in b2 {
+                        if let jammdb::Data::Bucket(bn) = d {
+                            if let Ok(nb) = b.get_bucket(&bn) {
+                                ro_mutators_on_bucket(&nb, mb, &[b"zz-absent".to_vec()], &mut viol, calls);
+                            }
+                        }
+                    }
+                }
             }
         }
         drop(root_handles);
